@@ -136,6 +136,9 @@ def check_seam(case):
     return oracle(text, toks, ct), (toks, ct)
 
 
+_PREV = {}
+
+
 def check_doc(case):
     text = case["text"]
     tk = tokenizer(case["tok"])
@@ -143,7 +146,15 @@ def check_doc(case):
         toks, ct = tk.tokenize(text)
     except Exception as e:  # noqa: BLE001
         return [("raise", short_exc(e))], None
-    return oracle(text, toks, ct), (toks, ct)
+    res = oracle(text, toks, ct)
+    # the result returned by the PREVIOUS call on this tokenizer (still held by its caller) must be unchanged by this call
+    prev = _PREV.get(case["tok"])
+    if prev is not None and not res:
+        ptext, ptoks, pct, psnap = prev
+        if [str(t) for t in ptoks] != psnap[0] or [(i, str(t)) for i, t in pct] != psnap[1]:
+            res = res + [("earlier-result-changed", f"the token lists returned for {ptext!r} were modified by the later call for {text!r}")]
+    _PREV[case["tok"]] = (text, toks, ct, ([str(t) for t in toks], [(i, str(t)) for i, t in ct]))
+    return res, (toks, ct)
 
 
 def replay(case):
